@@ -276,6 +276,13 @@ func (r *runner) build(n *core.Node, t Tx) (pb.Transaction, map[string]interface
 	switch t.K {
 	case "ibtp":
 		src, dst := full(n, t.Src), full(n, t.Dst)
+		if strings.HasSuffix(dst, ":@evm") { // a service of the hub itself that is a deployed EVM contract (or nothing, before one is deployed)
+			a := "0x0000000000000000000000000000000000000abd"
+			if r.ethContract != nil {
+				a = r.ethContract.String()
+			}
+			dst = strings.TrimSuffix(dst, "@evm") + a
+		}
 		proof := []byte("proof-" + src + dst + fmt.Sprint(t.Idx))
 		ibtp := n.NewIBTP(src, dst, t.Idx, typOf[t.Typ], t.T, proof)
 		gid := ""
@@ -378,6 +385,10 @@ func (r *runner) build(n *core.Node, t Tx) (pb.Transaction, map[string]interface
 				ibtp.Payload, _ = (&pb.Content{Func: "f"}).Marshal()
 			case "content1":
 				ibtp.Payload, _ = (&pb.Content{Func: "f", Args: [][]byte{[]byte("x")}}).Marshal()
+			case "calldata": // calldata for the storage test contract: stores a word; reverts if the first byte is 0xff
+				w := make([]byte, 32)
+				w[0], w[31] = []byte{1, 1, 0xff}[int(t.Idx)%3], byte(t.Idx)
+				ibtp.Payload, _ = (&pb.Content{Func: "f", Args: [][]byte{w}}).Marshal()
 			case "group":
 				ibtp.Group = &pb.StringUint64Map{Keys: []string{dst, "x"}, Vals: []uint64{1}}
 			}
@@ -399,7 +410,7 @@ func (r *runner) build(n *core.Node, t Tx) (pb.Transaction, map[string]interface
 		srcLocal := strings.HasPrefix(src, n.BxhID()+":")
 		dstLocal := strings.HasPrefix(dst, n.BxhID()+":")
 		kk := "ibtp"
-		if t.Mal != "" && t.Mal != "payload" && t.Mal != "nopayload" && t.Mal != "content0" && t.Mal != "content1" { // (the payload is opaque to the hub: such an IBTP is an ordinary one)
+		if t.Mal != "" && t.Mal != "payload" && t.Mal != "nopayload" && t.Mal != "content0" && t.Mal != "content1" && t.Mal != "calldata" { // (the payload is opaque to the hub: such an IBTP is an ordinary one)
 			kk = "ibtpmal" // judged by the generic block formulas only (C08 alive, C07 no effect when failed, C02 delivery)
 		}
 		d := map[string]interface{}{"k": kk, "from": from.Addr.String(), "to": tx.GetTo().String(), "cls": "ibtp", "badsig": false, "m": t.Mal,
@@ -1125,6 +1136,9 @@ func genPlan(rng *rand.Rand, name string, mode string) *Plan {
 			}
 			if rng.Intn(14) == 0 {
 				d = "1356:0x0000000000000000000000000000000000000abc" // a service of the hub itself: executed by the hub's own broker
+				if rng.Intn(2) == 0 {
+					d = "1356:@evm" // ... the EVM contract deployed earlier in the scenario, if any
+				}
 			}
 			if len(p.Unord) > 0 && rng.Intn(3) == 0 {
 				d = p.Unord[0]
@@ -1255,7 +1269,7 @@ func genPlan(rng *rand.Rand, name string, mode string) *Plan {
 					}
 					txs = append(txs, Tx{K: "ibtp", Src: s, Dst: d, Idx: idx, Typ: typ, Proof: proof, From: from})
 				} else if rng.Intn(3) == 0 {
-					mal := []string{"src", "dst", "type", "payload", "nopayload", "group", "content0", "content1"}[rng.Intn(8)]
+					mal := []string{"src", "dst", "type", "payload", "nopayload", "group", "content0", "content1", "calldata", "calldata"}[rng.Intn(10)]
 					txs = append(txs, Tx{K: "ibtp", Src: s, Dst: d, Idx: next[pair] + uint64(rng.Intn(2)), Typ: []string{"REQ", "REQ", "OK"}[rng.Intn(3)], T: timeouts[rng.Intn(len(timeouts))], Proof: "ok", From: from, Mal: mal})
 				} else if rng.Intn(3) == 0 {
 					m := []string{"transfer", "create", "store", "store", "lowgas"}[rng.Intn(5)]
